@@ -1,6 +1,8 @@
 package simkit
 
 import (
+	"fmt"
+
 	"github.com/XiaoMi/Gaea/log"
 	"github.com/google/uuid"
 )
@@ -10,12 +12,21 @@ import (
 // schedule).
 type nopLogger struct{}
 
+// LogHook, when set, sees warning/fatal messages of the code under test (no I/O happens).
+var LogHook func(level, msg string)
+
+func hook(level, format string, a []interface{}) {
+	if h := LogHook; h != nil {
+		h(level, fmt.Sprintf(format, a...))
+	}
+}
+
 func (nopLogger) SetLevel(name, level string) error                         { return nil }
 func (nopLogger) Debug(format string, a ...interface{}) error               { return nil }
 func (nopLogger) Trace(format string, a ...interface{}) error               { return nil }
 func (nopLogger) Notice(format string, a ...interface{}) error              { return nil }
-func (nopLogger) Warn(format string, a ...interface{}) error                { return nil }
-func (nopLogger) Fatal(format string, a ...interface{}) error               { return nil }
+func (nopLogger) Warn(format string, a ...interface{}) error                { hook("warn", format, a); return nil }
+func (nopLogger) Fatal(format string, a ...interface{}) error               { hook("fatal", format, a); return nil }
 func (nopLogger) Debugx(logID, format string, a ...interface{}) error       { return nil }
 func (nopLogger) Tracex(logID, format string, a ...interface{}) error       { return nil }
 func (nopLogger) Noticex(logID, format string, a ...interface{}) error      { return nil }
